@@ -148,6 +148,8 @@ Section Unknown.
                           else (d <-- mk_diag "IncorrectEndTag" newc (tk_text endident) ;; fail d)
                         else ret 0) ;;
                      inc <-- get_incfilename (c_fileid newc) ;;
+                     nrem <-- remaining ;;
+                     skip_comments (Datatypes.S nrem) c ;;;
                      loop n' (assoc_push tag (GTI inc (c_line newc) uid start_offset end_offset tag data is_block) ts)
                  | _ => ret ts
                  end
@@ -188,6 +190,8 @@ End Unknown.
 
 (* ifdata.rs parse_ifdata with no A2ML specification available (a2mlspec empty) *)
 Definition parse_ifdata_nospec (fuel : nat) (c : ctx) : M (option gifd * bool) :=
+  n0 <-- remaining ;;
+  skip_comments (Datatypes.S n0) c ;;;
   pk <-- peek_token ;;
   match pk with
   | Some t =>
